@@ -27,6 +27,7 @@ uint64_t vr_strlen(const char* s){
 }
 /* strcmp that never runs past a terminator symex cannot see: bounded by the registered length of either argument */
 int vr_strcmp(const char* a, const char* b){
+  if (a == b) return 0;
   uint64_t bound = (uint64_t)-1;
   for (int i = 0; i < vr_nreg && i < VR_MAXREG; i++) { if (a == vr_reg[i].p && vr_reg[i].len < bound) bound = vr_reg[i].len; if (b == vr_reg[i].p && vr_reg[i].len < bound) bound = vr_reg[i].len; }
   for (uint64_t i = 0; ; i++) { unsigned char x = (unsigned char)a[i], y = (unsigned char)b[i]; if (x != y) return x < y ? -1 : 1; if (x == 0 || i == bound) return 0; }
